@@ -248,6 +248,15 @@ class UHolderCopyable(Exception):
     self.payload = [object(), {'k': object()}]
 
 
+class ULocked(Exception):
+  """Refuses every attribute assignment (so neither a proxy nor a note can be attached): it must at least arrive."""
+  def __setattr__(self, k, v):
+    raise AttributeError('read-only')
+
+
+MESSAGE_OPTIONAL = {'ULocked'}
+
+
 class UKwOnly(Exception):
   def __init__(self, *, code):
     super().__init__('code=%s' % code)
@@ -269,7 +278,7 @@ USER = {
     'UDescr': lambda: UDescr('quota', 100, 'acme'),
     'UFinal': lambda: UFinal('x'), 'UReadOnlyArgs': lambda: UReadOnlyArgs('y'), 'UValidatingNew': lambda: UValidatingNew(404, 'nf'),
     'GroupArgsReassigned': lambda: _regroup(),
-    'UShape': lambda: UShape(3, 4), 'TypeErrorNonStringArg': lambda: TypeError(42), 'TypeErrorNoArgs': lambda: TypeError(),
+    'ULocked': lambda: ULocked('x', 2), 'UShape': lambda: UShape(3, 4), 'TypeErrorNonStringArg': lambda: TypeError(42), 'TypeErrorNoArgs': lambda: TypeError(),
     'TypeErrorBytesArg': lambda: TypeError(b'argument'), 'UHolder': lambda: UHolder('held'), 'UHolderCopyable': lambda: UHolderCopyable('held'),
 }
 
@@ -456,7 +465,9 @@ def check_one(cname, site, depth, res, desc):
   # ---- message
   # (the extension may be carried as exception notes, which tracebacks display after the message)
   s, so = str(got) + ''.join('\n  ' + n for n in getattr(got, '__notes__', []) or [] if isinstance(n, str) and 'configurable' in n), str(orig)
-  if not s.startswith(so) or not all(("configurable '%s'" % n) in s for n in names) or (scope and scope not in s):
+  if cname in MESSAGE_OPTIONAL:
+    pass
+  elif not s.startswith(so) or not all(("configurable '%s'" % n) in s for n in names) or (scope and scope not in s):
     res.violation('message', '%r: str() is %r; expected %r extended by a note naming %r and scope %r' %
                   (desc, s, so, names, scope), desc)
     return
@@ -624,6 +635,8 @@ def gen(tier):
   for name in INTERP:
     yield ['interp', name]
   for c, s, d in itertools.product(sorted(all_factories()), SITES, DEPTHS):
+    if c == 'ULocked' and s not in ('body', 'reference'):
+      continue   # contextlib itself assigns exc.__traceback__ when such an exception leaves a `with config_scope` block
     yield [c, s, d]
   for c in ['ValueError', 'KeyError', 'UExtra', 'UBase', 'USub', 'UMulti', 'UStr', 'LookupError', 'RuntimeError']:
     for d in (2, 3):
